@@ -1062,8 +1062,9 @@ func c17RunSite(in *c17In) Result {
 		ow = "over"
 	}
 	sig := fmt.Sprintf("site:%s:%s:%s", kind, framing, ow)
-	// the known deviations: the body is cut correctly and nothing else is wrong, only the status
-	// the client sees is not 413
+	// precise classes for the deviations once found on real sites (F-C17-4/5/6): the body is cut
+	// correctly and nothing else is wrong, only the status the client sees is not 413.  The spec in
+	// judge demands 413 for all of them; the class only names the regression
 	if over && prefix && backend <= in.Limit && (followup == 204 || followup == -2) {
 		switch {
 		case in.Consumer == 0 && !in.Chunked && status == 502 && backend == in.Limit:
